@@ -18,7 +18,7 @@ LEVEL = 'exploration'
 RULE = ('1-5 chatty tasks (independent, chains, fan-in) x backends {fork, spawn sampled; serial for logger records} x max_workers x '
         'per-task scripts: interleavings of logger.info/warning/error(token), print(token), print(token, flush=True), '
         'sys.stderr.write(token) without newline, print(token, file=stderr), explicit flush of both streams repeated 0-3 times, '
-        'whitespace-only prints; every token is unique (<task>:<stream>:<seq>). Gated variants (fork) let the schedule choose '
+        'whitespace-only prints, bursts of 120-450 logger records, and tasks that raise after emitting; every token is unique (<task>:<stream>:<seq>). Gated variants (fork) let the schedule choose '
         'which task finishes in the last polling round; single-task runs are always included. Oracle: a handler attached to '
         'labtech.logger in the caller records (level, message); at the instant run_tasks returns every token must occur exactly '
         'once over all recorded messages, on the expected stream/level (Captured STDOUT -> INFO, Captured STDERR -> ERROR, logger '
@@ -40,17 +40,24 @@ class Recorder(logging.Handler):
             self.records.append(('ERROR-IN-HANDLER', repr(ex)))
 
 
+def _tok(t):
+    return ':'.join(str(x) for x in t) if isinstance(t, (list, tuple)) else t
+
+
 def tokens_of(spec: dict):
     """token -> (expected level, expected prefix or None)"""
     out = {}
     for n in spec['nodes']:
         for act in n['script']:
             if act[0] == 'log':
-                out[act[2]] = (act[1].upper(), None)
+                out[_tok(act[2])] = (act[1].upper(), None)
             elif act[0] == 'print':
-                out[act[1]] = ('INFO', 'Captured STDOUT')
+                out[_tok(act[1])] = ('INFO', 'Captured STDOUT')
             elif act[0] in ('err', 'errln'):
-                out[act[1]] = ('ERROR', 'Captured STDERR')
+                out[_tok(act[1])] = ('ERROR', 'Captured STDERR')
+            elif act[0] == 'burst':
+                for i in range(act[1]):
+                    out[f'{_tok(act[2])}:{i}:'] = ('INFO', None)
     return out
 
 
@@ -95,7 +102,7 @@ def check(spec: dict) -> core.CaseResult:
                 os.remove(os.path.join(obs, 'gated'))
             lab2 = labtech.Lab(storage=None, runner_backend=backend, max_workers=1, notebook=False)
             try:
-                lab2.run_tasks([vu.Chat(name='later', script=[['log', 'info', 'later:log:0']], deps=None)], disable_progress=True, disable_top=True)
+                lab2.run_tasks([vu.Chat(name='later', script=[['log', 'info', ['later', 'log', 0]]], deps=None)], disable_progress=True, disable_top=True)
             except Exception:
                 pass
         late = handler.records[len(at_return):]
@@ -159,20 +166,26 @@ def chat_spec(draw, backend: str, gated: bool):
         for s in range(k):
             kind = draw(st.sampled_from(['log', 'log', 'print', 'print', 'printf', 'err', 'errln', 'flush', 'flush', 'ws']))
             if kind == 'log':
-                script.append(['log', draw(st.sampled_from(['info', 'warning', 'error'])), f'{name}:log:{s}'])
+                script.append(['log', draw(st.sampled_from(['info', 'warning', 'error'])), [name, 'log', s]])
             elif kind == 'print':
-                script.append(['print', f'{name}:out:{s}', False])
+                script.append(['print', [name, 'out', s], False])
             elif kind == 'printf':
-                script.append(['print', f'{name}:out:{s}', True])
+                script.append(['print', [name, 'out', s], True])
             elif kind == 'err':
-                script.append(['err', f'{name}:err:{s}'])
+                script.append(['err', [name, 'err', s]])
             elif kind == 'errln':
-                script.append(['errln', f'{name}:err:{s}'])
+                script.append(['errln', [name, 'err', s]])
             elif kind == 'flush':
                 script.append(['flush'])
             else:
                 script.append(['ws'])
+        if draw(st.integers(0, 5)) == 0:
+            script.insert(draw(st.integers(0, len(script))), ['burst', draw(st.sampled_from([120, 260, 450])), [name, 'burst']])
+        if draw(st.integers(0, 3)) == 0:
+            script.append(['raise'])       # the task fails after emitting: what it emitted must still be delivered
         deps = sorted(set(draw(st.lists(st.integers(0, i - 1), max_size=2)))) if i else []
+        if any(a[0] == 'raise' for n_ in nodes for a in n_['script'] if nodes.index(n_) in deps):
+            deps = []                       # keep dependents of failing tasks out of the picture
         nodes.append({'name': name, 'script': script, 'deps': deps})
     requested = sorted(set(draw(st.lists(st.integers(0, n - 1), min_size=1, max_size=n)) + [n - 1]))
     return {'nodes': nodes, 'requested': requested, 'backend': backend, 'gated': gated,
